@@ -435,3 +435,88 @@ Proof.
     unfold vR. cbn [o_add o_mul o_zero nops to_f]. fold xi gi.
     now destruct (b64_dither_step cf gi xi Fc Fg Fx H1 H2).
 Qed.
+
+(* ---- float32 / float16 arrays: values of the narrow format survive the round
+   trip  narrow -> float64 -> narrow  unchanged *)
+Lemma round_via_id : forall prec emax (Hp : Prec_gt_0 prec) (Hm : Prec_lt_emax prec emax) (f : b64),
+  is_finite f = true ->
+  generic_format radix2 (SpecFloat.fexp prec emax) (B2R f) ->
+  Rabs (B2R f) < bpow radix2 emax ->
+  round_via prec emax Hp Hm f = f.
+Proof.
+  intros prec emax Hp Hm f Ff Gf Lf.
+  destruct f as [s|s| |s m e Hb]; try reflexivity. unfold round_via.
+  set (x := F2R (Float radix2 (cond_Zopp s (Z.pos m)) e)).
+  assert (Hx : B2R (B754_finite s m e Hb : b64) = x) by reflexivity.
+  assert (Nx : x <> 0).
+  { unfold x. intros H. apply eq_0_F2R in H. destruct s; discriminate H. }
+  assert (Sx : Rcompare x 0 = if s then Lt else Gt).
+  { unfold x. destruct s; cbn [cond_Zopp].
+    - apply Rcompare_Lt. now apply F2R_lt_0.
+    - apply Rcompare_Gt. now apply F2R_gt_0. }
+  generalize (binary_normalize_correct prec emax Hp Hm mode_NE (cond_Zopp s (Z.pos m)) e s).
+  cbv zeta. fold x. cbn [round_mode].
+  rewrite Hx in Gf, Lf.
+  rewrite (round_generic radix2 (SpecFloat.fexp prec emax) ZnearestE x Gf).
+  rewrite Rlt_bool_true by exact Lf. rewrite Sx.
+  destruct (binary_normalize prec emax Hp Hm mode_NE (cond_Zopp s (Z.pos m)) e s)
+    as [s'|s'| |s' m' e' Hb']; intros (R1 & F1 & S1); try discriminate F1.
+  - cbn in R1. now elim Nx.
+  - cbn [Bsign] in S1.
+    assert (R1' : F2R (Float radix2 (cond_Zopp s' (Z.pos m')) e') = x) by exact R1.
+    generalize (binary_normalize_correct 53 1024 _ _ mode_NE (cond_Zopp s' (Z.pos m')) e' s').
+    cbv zeta. rewrite R1'. cbn [round_mode].
+    assert (G64 : generic_format radix2 fexp64 x).
+    { rewrite <- Hx. apply generic_format_B2R. }
+    rewrite (round_generic radix2 fexp64 ZnearestE x G64).
+    assert (L64 : Rabs x < bpow radix2 1024).
+    { rewrite <- Hx. apply abs_B2R_lt_emax. }
+    rewrite Rlt_bool_true by exact L64. rewrite Sx.
+    intros (R2 & F2 & S2).
+    apply B2R_Bsign_inj; [exact F2|reflexivity|now rewrite R2|].
+    rewrite S2. cbn [Bsign]. now destruct s.
+Qed.
+
+(* the first sample of a float32 / float16 signal is returned bit for bit *)
+Lemma preemph_narrow_first_l : forall (c : val) d (f : b64) xs ip ax r,
+  axis_ok ax = true -> is_finite f = true ->
+  (d = F32 /\ generic_format radix2 (SpecFloat.fexp 24 128) (B2R f) /\ Rabs (B2R f) < bpow radix2 128) \/
+  (d = F16 /\ generic_format radix2 (SpecFloat.fexp 11 16) (B2R f) /\ Rabs (B2R f) < bpow radix2 16) ->
+  exists y, out_arr (run nops ngen c ip ax preemph_prog (Build_arr d (VF f :: xs)) r)
+            = Some (Build_arr d (VF f :: y)).
+Proof.
+  intros c d f xs ip ax r Hax Ff Hd.
+  destruct (preemph_values_l nops ngen c ip ax d (VF f :: xs) r Hax) as (_ & A).
+  rewrite A. destruct Hd as [(-> & G & L)|(-> & G & L)];
+    unfold conv; cbn [dtype_eqb map preemph_spec o_cast nops ncast to_f];
+    rewrite round_via_id by assumption; eexists; reflexivity.
+Qed.
+
+Example narrow_hypotheses_satisfiable :
+  let f := mk64 3 (-1) in
+  is_finite f = true /\ generic_format radix2 (SpecFloat.fexp 24 128) (B2R f) /\
+  Rabs (B2R f) < bpow radix2 128.
+Proof.
+  cbv zeta. destruct (mk64_dyadic 3 (-1)) as (A & B); [reflexivity|lia|].
+  split; [exact A|]. rewrite B. split.
+  - change (SpecFloat.fexp 24 128) with (FLT_exp (-149) 24). apply generic_format_FLT.
+    apply FLT_spec with (Float radix2 3 (-1)); [reflexivity|reflexivity|discriminate].
+  - apply Rlt_le_trans with (bpow radix2 2); [|apply bpow_le; lia].
+    rewrite Rabs_pos_eq by (apply Rmult_le_pos; [lra|apply bpow_ge_0]).
+    simpl (bpow radix2 (-1)). simpl (bpow radix2 2). lra.
+Qed.
+
+(* ---- a finding: on integer dtypes the cast back truncates toward zero, so
+   symmetric noise is not returned symmetrically.  Deviates +1/2 and -1/2 with
+   coeff 1 move the int16 sample 1000 by 0 and by -1 (mean -1/2, not 0); for the
+   sample -1000 by +1 and 0 (mean +1/2): the returned noise is biased by
+   -sign(x)/2 and so depends on the signal. *)
+Definition out_data (s : state val (list val)) : list repr :=
+  match out_arr s with Some a => map repr_of (a_data a) | None => [] end.
+
+Lemma dither_int_noise_biased_l :
+  let c := VF (mk64 1 0) in
+  let run1 x g := out_data (run nops ngen c false None dither_prog (Build_arr I16 [VI x]) [VF g]) in
+  run1 1000%Z (mk64 1 (-1)) = [RInt 1000] /\ run1 1000%Z (mk64 (-1) (-1)) = [RInt 999] /\
+  run1 (-1000)%Z (mk64 1 (-1)) = [RInt (-999)] /\ run1 (-1000)%Z (mk64 (-1) (-1)) = [RInt (-1000)].
+Proof. vm_compute. repeat split. Qed.
